@@ -1,6 +1,7 @@
 package c08
 
 import (
+	"bytes"
 	"testing"
 
 	"pgregory.net/rapid"
@@ -95,6 +96,13 @@ func genCase(t *rapid.T) Case {
 			ps = append(ps, p)
 		}
 		c.Others = append(c.Others, ps)
+	}
+	if len(c.Params) > 0 && c.Bulk == 0 && rapid.IntRange(0, 11).Draw(t, "big-values") == 0 {
+		// values of two pages in the checked portal and in another portal bound before it is executed
+		c.Params[0] = Param{Fmt: c.Params[0].Fmt, Raw: bytes.Repeat([]byte("A"), rapid.SampledFrom([]int{4097, 8000, 12000}).Draw(t, "big-a"))}
+		other := []Param{{Raw: bytes.Repeat([]byte("B"), rapid.SampledFrom([]int{4097, 8000, 9000}).Draw(t, "big-b"))}}
+		c.Others = append([][]Param{other}, c.Others...)
+		c.Big = true
 	}
 	if fam, pool := gen.Names(t); fam != "plain" && len(c.Others) > 0 {
 		c.NameFamily, c.Names = fam, pool[1:]
